@@ -75,11 +75,13 @@ from concurrent.futures import ThreadPoolExecutor
 import core
 
 LEVEL = "proof"
-EXTRA_TARGETS = ["model/CachesTie.vo", "model/CachesInvalTie.vo", "model/CachesEnvTie.vo", "model/CachesHandTie.vo"]
+EXTRA_TARGETS = ["model/CachesTie.vo", "model/CachesInvalTie.vo", "model/CachesEnvTie.vo", "model/CachesHandTie.vo",
+                 "model/CachesArgsTie.vo"]
 
 HEADER = ("From Coq Require Import List ZArith Bool.\nImport ListNotations.\n"
           "From TI Require Import lib.Sched model.Caches model.CachesTie model.CachesInval model.CachesInvalTie.\n"
           "From TI Require Import model.CachesEnv model.CachesEnvTie model.CachesHand model.CachesHandTie.\n"
+          "From TI Require Import model.CachesArgs model.CachesArgsTie.\n"
           "Open Scope Z_scope.\n")
 
 CELLS = [(8, 16), (10, 20), (9, 18), (7, 15), (1, 1), (12, 24), (10, 20), (16, 32)]
@@ -683,6 +685,187 @@ def describe_probe(c):
     return "cached probe: " + ", ".join(
         "invalidate" if o[0] == "I" else "call#%d->%s" % (o[1], "None" if pr["res"][o[1]] < 0 else PROBE_NAMES[pr["res"][o[1]]])
         for o in pr["cmds"])
+
+
+# ------------------------- terminal_size_cached called with several argument tuples
+
+N_TS_ARGS = 7
+TS_ARG_NAMES = ["f()", "pane_a.f()", "pane_b.f()", "f(2)", "f(n=2)", "f(1, 2, n=None)", "f([1, 2])"]
+TS_SIZES = [[80, 24], [121, 40], [100, 30], [132, 43], [80, 25], [24, 80]]
+Z7 = [0] * N_TS_ARGS
+
+
+def _ta(t0, cmds, offs=None, real=0):
+    return {"tsargs": {"t0": t0, "offs": list(offs or Z7), "real": real, "cmds": cmds}}
+
+
+TSARGS_CORPUS = [
+    # two instances cached, a resize, each used again (both orders), and back
+    _ta([80, 24], [["C", 1], ["C", 2], ["R", 121, 40], ["C", 1], ["C", 2], ["R", 80, 24], ["C", 2], ["C", 1]], real=1),
+    _ta([80, 24], [["C", 3], ["C", 4], ["R", 100, 30], ["C", 4], ["C", 3], ["C", 0]]),
+    # three argument tuples, an invalidation, a resize inside a body
+    _ta([100, 30], [["C", 0], ["C", 5], ["C", 6], ["I"], ["C", 5], ["R", 80, 25], ["C", 6], ["C", 0], ["C", 5]]),
+    _ta([80, 24], [["C", 1], ["CR", 2, 132, 43], ["R", 121, 40], ["CR", 2, 80, 24], ["C", 1], ["C", 2], ["C", 1]], real=1),
+    # away and back without a call in between: the slot is still right
+    _ta([80, 24], [["C", 1], ["C", 2], ["R", 24, 80], ["R", 80, 24], ["C", 2], ["C", 1]]),
+    # a wrapped function that DOES depend on its arguments: the documented "last return value" (argument-blind)
+    _ta([80, 24], [["C", 1], ["C", 2], ["R", 121, 40], ["C", 2], ["C", 1], ["I"], ["C", 1]], offs=[0, 1, 2, 3, 4, 5, 6]),
+]
+
+
+def gen_tsargs(rng):
+    hot = rng.sample(range(N_TS_ARGS - 1), rng.randint(2, 3))
+    if rng.random() < 0.2:
+        hot[-1] = N_TS_ARGS - 1     # arguments that are not hashable
+    pool = rng.sample(TS_SIZES, rng.randint(2, 3))
+    if rng.random() < 0.3:
+        pool.append([rng.choice(COLS), rng.randint(1, 60)])
+    cur = list(pool[0])
+    offs = list(Z7) if rng.random() < 0.7 else [rng.randrange(4) for _ in range(N_TS_ARGS)]
+    cmds = []
+    for _ in range(rng.randint(4, 14)):
+        u = rng.random()
+        k = rng.choice(hot) if rng.random() < 0.9 else rng.randrange(N_TS_ARGS)
+        if u < 0.60:
+            cmds.append(["C", k])
+        elif u < 0.85:
+            t = rng.choice(pool)
+            cmds.append(["R", t[0], t[1]])
+        elif u < 0.92:
+            cmds.append(["I"])
+        else:
+            t = rng.choice([x for x in pool if x != cur] or pool)
+            cmds.append(["CR", k, t[0], t[1]])
+        if cmds[-1][0] == "R":
+            cur = cmds[-1][1:3]
+    return _ta(pool[0], cmds, offs, int(rng.random() < 0.3))
+
+
+def tsargs_term(c, r):
+    ta = c["tsargs"]
+
+    def tz(t):
+        return "(%d%%nat, %d%%nat)" % (t[0], t[1])
+
+    def cmd(o):
+        return {"C": lambda: "ACall %d%%nat" % o[1], "CR": lambda: "ACallR %d%%nat %s" % (o[1], tz(o[2:4])),
+                "R": lambda: "AResize %s" % tz(o[1:3]), "I": lambda: "AInval"}[o[0]]()
+
+    def oz(v):
+        return "None" if v in ("-", None) else "(Some %s)" % core.z(v)
+    return "{| a_t0 := %s; a_offs := %s; a_cmds := %s; a_rows := %s; a_fresh := %s |}" % (
+        tz(ta["t0"]), core.coq_list(ta["offs"], core.z), core.coq_list(ta["cmds"], cmd),
+        core.coq_list(r["rows"], lambda x: "(%s, %s)" % (oz(x["val"]), core.coq_list(x["ran"], lambda n: "%d%%nat" % n))),
+        core.coq_list(r["rows"], lambda x: oz(x["fresh"])))
+
+
+def eval_tsargs(cases, tag="c15a"):
+    impl = core.run_impl_parallel("impl_c15.py", cases)
+    rep, errors = core.coq_shards(tag, HEADER, [tsargs_term(c, r) for c, r in zip(cases, impl)], "acase",
+                                  "areport cases", shard=400)
+    codes = [0] * len(cases)
+    if len(rep) != len(cases) and not errors:
+        errors.append(f"Coq reported {len(rep)} results for {len(cases)} terminal_size_cached histories")
+    for idx, v in rep:
+        codes[idx] = v
+    return codes, errors, impl
+
+
+def shrink_tsargs(case):
+    cur = case
+    for _ in range(30):
+        ta = cur["tsargs"]
+        cmds = ta["cmds"]
+        cands = [{"tsargs": dict(ta, cmds=cmds[:k] + cmds[k + 1:])} for k in range(len(cmds)) if len(cmds) > 1]
+        cands += [{"tsargs": dict(ta, cmds=cmds[:k] + [["C", o[1]]] + cmds[k + 1:])} for k, o in enumerate(cmds) if o[0] == "CR"]
+        if ta["real"]:
+            cands.append({"tsargs": dict(ta, real=0)})
+        if any(ta["offs"]):
+            cands.append({"tsargs": dict(ta, offs=list(Z7))})
+        if not cands:
+            break
+        codes, errors, _ = eval_tsargs(cands, tag="c15as")
+        nxt = next((c for c, code in zip(cands, codes) if code >= 2), None)
+        if nxt is None or errors:
+            break
+        cur = nxt
+    return cur
+
+
+def describe_tsargs(c, rows=None):
+    ta = c["tsargs"]
+
+    def one(i, o):
+        if o[0] == "R":
+            return "resize(%dx%d)" % (o[1], o[2])
+        if o[0] == "I":
+            return "_invalidate_terminal_size_cache()"
+        txt = TS_ARG_NAMES[o[1]] + ("[the terminal becomes %dx%d while the body runs]" % (o[2], o[3]) if o[0] == "CR" else "")
+        if rows:
+            x = rows[i]
+            txt += " -> %s (fresh computation with these arguments: %s; body ran: %s)" % (
+                x.get("exc", x["val"]) if x["val"] is None else x["val"], x["fresh"], "yes" if x["ran"] else "no")
+        return txt
+    return "terminal_size_cached probe (%s; body = columns*1000 + lines%s) at %dx%d: " % (
+        "real get_terminal_size() on a pty" if ta["real"] else "scripted terminal size",
+        " + 1000000*%s[argument tuple]" % ta["offs"] if any(ta["offs"]) else "", *ta["t0"]) + "; ".join(
+        one(i, o) for i, o in enumerate(ta["cmds"]))
+
+
+def tsargs_part(acases, only=False):
+    mismatches, failures, errors, extra = [], [], [], {}
+    t0 = time.time()
+    codes, aerr, impl = eval_tsargs(acases)
+    errors += aerr
+    st = {"histories": len(acases), "size_only_body": 0, "argument_dependent_body": 0, "real_get_terminal_size_on_pty": 0,
+          "calls": 0, "calls_served_by_the_slot": 0, "calls_served_after_a_call_with_other_arguments_computed_at_this_size": 0,
+          "first_call_with_other_arguments_after_a_resize_was_noticed": 0, "resize_landed_in_body": 0,
+          "unhashable_argument_calls": 0, "distinct_argument_tuples_per_history": {}}
+    for c, r in zip(acases, impl):
+        ta = c["tsargs"]
+        st["size_only_body" if not any(ta["offs"]) else "argument_dependent_body"] += 1
+        st["real_get_terminal_size_on_pty"] += bool(ta["real"])
+        ks = {o[1] for o in ta["cmds"] if o[0] in ("C", "CR")}
+        st["distinct_argument_tuples_per_history"][len(ks)] = st["distinct_argument_tuples_per_history"].get(len(ks), 0) + 1
+        filler, resized_since = None, False   # who computed the value in force; was there a size change before it
+        cur, seen_sizes = list(ta["t0"]), {}
+        for o, row in zip(ta["cmds"], r["rows"]):
+            if o[0] == "R":
+                cur = list(o[1:3])
+            elif o[0] == "I":
+                filler = None
+            else:
+                st["calls"] += 1
+                st["unhashable_argument_calls"] += o[1] == N_TS_ARGS - 1
+                if row["ran"]:
+                    resized_since = filler is not None
+                    filler = o[1]
+                    if o[0] == "CR":
+                        st["resize_landed_in_body"] += 1
+                        cur = list(o[2:4])
+                else:
+                    st["calls_served_by_the_slot"] += 1
+                    if filler is not None and filler != o[1]:
+                        st["calls_served_after_a_call_with_other_arguments_computed_at_this_size"] += 1
+                        st["first_call_with_other_arguments_after_a_resize_was_noticed"] += bool(resized_since)
+    extra["tsargs"] = st
+    done = 0
+    for c, code, r in zip(acases, codes, impl):
+        if code >= 2:
+            done += 1
+            if done > 3:
+                continue
+            small = shrink_tsargs(c) if done == 1 and not only else c
+            codes2, _, impl2 = eval_tsargs([small], tag="c15as")
+            failures.append({
+                "signature": core.sig(small),
+                "what": "a function memoised per terminal size (utils.terminal_size_cached) returned, for one of several "
+                        "argument tuples, something else than a fresh computation for the CURRENT terminal size (or raised, "
+                        "or ran its body with other arguments): " + describe_tsargs(small, impl2[0]["rows"]),
+                "replay": {"tsargs": small["tsargs"], "observed": impl2[0], "code": codes2[0]}})
+        elif code:
+            mismatches.append({"tsargs": c["tsargs"], "code": code, "observed": r})
+    return mismatches, failures, errors, extra, {"tsargs_histories": round(time.time() - t0, 1)}
 
 
 # ------------------------------------- swap toggles scheduled against get_cell_size
@@ -1357,6 +1540,8 @@ def run_parts(parts):
     jobs = []
     if "probe" in parts:
         jobs.append(lambda: probe_part(parts["probe"], parts.get("only", False)))
+    if "tsargs" in parts:
+        jobs.append(lambda: tsargs_part(parts["tsargs"], parts.get("only", False)))
     if "swap" in parts:
         jobs.append(lambda: swap_part(parts["swap"], parts.get("only", False)))
     if "inval" in parts:
@@ -1376,16 +1561,16 @@ def run_parts(parts):
 
 def run(ctx):
     rng = ctx.rng
-    if ctx.replay and any(k in ctx.replay["replay"] for k in ("probe", "swap", "inval", "hand")):
+    if ctx.replay and any(k in ctx.replay["replay"] for k in ("probe", "swap", "inval", "hand", "tsargs")):
         rc = ctx.replay["replay"]
-        kind = next(k for k in ("probe", "swap", "inval", "hand") if k in rc)
+        kind = next(k for k in ("probe", "swap", "inval", "hand", "tsargs") if k in rc)
         only = {kind: rc[kind]}
         parts = {"only": True, kind: ([only], 0) if kind in ("inval", "hand") else [only]}
         mismatches, failures, errors, extra = run_parts(parts)
         return {"corr_name": "replay of a probe history / swap schedule / invalidation schedule / hand-over schedule",
                 "evaluations": 1, "distinct_nontrivial": 1, "rule": "replay",
                 "samples": [{"probe": describe_probe, "swap": describe_swap, "inval": describe_inval,
-                             "hand": describe_hand}[kind](only)],
+                             "hand": describe_hand, "tsargs": describe_tsargs}[kind](only)],
                 "histogram": {}, "mismatches": mismatches, "failures": failures, "errors": errors,
                 "assumptions": [], "trusted": [], "extra": extra}
     races, parts, n_real = [], {}, 0
@@ -1402,6 +1587,8 @@ def run(ctx):
         reals = copy.deepcopy(REAL_CORPUS) + [gen_real_case(rng, i) for i in range(70 if ctx.quick else 1500)]
         n_real = len(reals)
         cases += reals
+        # (drawn last: every older case is the same as before for a given seed)
+        parts["tsargs"] = copy.deepcopy(TSARGS_CORPUS) + [gen_tsargs(rng) for _ in range(150 if ctx.quick else 3000)]
     t_start = time.time()
     pool = ThreadPoolExecutor(max_workers=4)
     f_races = pool.submit(run_races, races) if races else None
@@ -1592,7 +1779,12 @@ def run(ctx):
                 "inside get_cell_size's ioctl (flag not read yet) and at its cache write: a corpus, EVERY interleaving of the picks of "
                 "[Process.start() || enable_win_size_swap()] and of [Process.start() || enable_queries()] on a warm cache (330 each; "
                 "thorough: also with disable_win_size_swap()), and random programs (a getter as third thread, two starts, toggles there and back, "
-                "both kinds of invalidator, warm / cold) under random interleavings.",
+                "both kinds of invalidator, warm / cold) under random interleavings.  PLUS (extra.tsargs) histories of 4-14 commands on a "
+                "probe under the real utils.terminal_size_cached called with 2-3 hot argument tuples out of 7 ((), two instances as for a "
+                "decorated method, f(2), f(n=2), mixed positional/keyword, an unhashable argument): call 60% / resize among 2-4 sizes (so "
+                "sizes are revisited) 25% / _invalidate_terminal_size_cache() 7% / call with a resize landing in the body 8%; body = a "
+                "function of the terminal size alone (70%) or depending on the argument tuple (30%); terminal size scripted (70%) or the "
+                "library's own get_terminal_size() on a pty resized with TIOCSWINSZ (30%); a corpus of 6 first.",
         "samples": ([describe(c) for c in cases[:1] + cases[14:15] + cases[len(CORPUS):len(CORPUS) + 1]
                      + (cases[len(cases) - n_real:len(cases) - n_real + 1] + cases[-1:] if n_real else [])]
                     + ([describe_hand(parts["hand"][0][3])] if parts.get("hand") else [])
@@ -1605,6 +1797,9 @@ def run(ctx):
             "side condition of the property: at a call that needs the cell size, a live entry for the current size in "
             "cells was made at the same pixel size (pixel-only changes between two calls are not required to be noticed)",
             "terminal name/version, colours and capabilities do not change during a session (they are parameters of a history)",
+            "freshness per argument tuple of a terminal_size_cached function is claimed for wrapped functions whose result depends "
+            "on the terminal size only (size_only; the decorator is documented to return 'the last return value' whatever the "
+            "arguments, and the library never calls such a function with differing arguments)",
             "the body of a memoised function is atomic with respect to its own lock and does not call the same memoised function",
             "AutoCellRatio.is_supported is sticky by documentation and modelled as such (outside the property)",
             "a resize during a memoised computation lands after the body has looked at the terminal (the body's value is "
@@ -1664,6 +1859,9 @@ def run(ctx):
             "return and the call of get_lock()",
             "probe histories: the probe's body counts its runs and returns scripted objects; returned objects are "
             "identified by identity",
+            "terminal_size_cached with several argument tuples: the probe's body asks utils.get_terminal_size() and logs the "
+            "argument tuple it ran with; the fresh computation is probe.__wrapped__ called with the call's own arguments just "
+            "before the call (not logged); the in-body resize is done by the body itself",
             "thread races use real threads (outcome is schedule-independent on correct code); CPython's RLock is trusted",
         ],
         "extra": extra,
